@@ -343,6 +343,10 @@ def judge_block(case, hb, db, ci_names, stats):
         elif hd.get("wf") != "1":
             probs.append({"what": "hypothesis WFTokens of C04_backtrace_partition does not hold on the dumped token stack",
                           "detail": hyp, "impl": False, "key": None, "tie": True})
+        if not skip and a.startswith("A ok") and any(hd.get(k) != "1" for k in ("mono", "sf0", "tend", "tbound", "alive")):
+            probs.append({"what": "hypotheses of C04_alignStep_WFTokens (ef non-decreasing, sf[0] <= 0, T <= ef[last], "
+                                  "T < 16140, final score alive) do not hold on the dumped search", "detail": hyp,
+                          "impl": False, "key": None, "tie": True})
         if not skip and hd.get("noskip") != "1":
             probs.append({"what": "hypothesis NoSkip does not hold for a transition matrix used by the alignment",
                           "detail": hyp, "impl": False, "key": None, "tie": True})
